@@ -203,6 +203,8 @@ def r6_3(ctx, R):
                (fn and not b.is_cleanup(bb) and re.search(r"core::panicking::panic_fmt$", fn["def"]))]
         if not pan or not re.search(r"::push(_back|_front)?$", b.path):
             continue
+        if not reaches(ctx.facts, b, re.escape(R.insert_fn.path) + "$", 4):
+            continue          # not an accepting push (e.g. the ready-queue's own `push(index)`): nothing to refuse
         fl2 = ctx.flow(b)
         for bb, t in pan:
             m += 1
@@ -318,6 +320,13 @@ def _replaces_whole_self(ctx, b, fl, bb, p, ty):
     return False
 
 
+def _only_callables(ctx, b, ty):
+    """Every type parameter mentioned by `ty` (e.g. Option<F>) is one the body calls: a stored user closure."""
+    names = set()
+    ctx.facts.walk_type(ty, lambda t, c, key: names.add(t["name"]) if t["k"] == "param" else None)
+    return bool(names) and names <= _callable_params(b)
+
+
 def _callable_params(b):
     """Names of type parameters that the body CALLS (receiver of Fn / FnMut / FnOnce calls): generic callables."""
     out = set()
@@ -359,7 +368,7 @@ def r6_5(ctx, R):
             elif p and re.search(r"(IntoIter|Map<|Enumerate<|<I as core::iter::IntoIterator>::IntoIter|core::iter::)", ty):
                 ok = True
                 why = "exhausted iterator adaptor"
-            elif p and (ty.startswith("impl FnMut") or ty.startswith("impl Fn") or ty in _callable_params(b)):
+            elif p and (ty.startswith("impl FnMut") or ty.startswith("impl Fn") or ty in _callable_params(b) or _only_callables(ctx, b, ty)):
                 ok = True
                 why = "a callable (closure / poll function) parameter, not a child"
             elif p and re.match(r"core::result::Result<\(\), \w+>$", ty) and re.search(r"::push(_back|_front)?$", b.path):
